@@ -23,7 +23,7 @@ Checks(e) ==
      Ck("C04", "every field of the parsed message equals what the independent encoder wrote (nothing dropped, shifted or read from a neighbour)",
         Parsed(e) => Enc(o.first.tree) = e.frame),
      Ck("C04", "the parsed message reports the size of the frame", Parsed(e) => o.first.len = Len(e.frame)),
-     Ck("C05", "re-encoding the parsed message reproduces the frame", Parsed(e) => o.first.reenc = e.frame),
+     Ck("C05", "re-encoding the parsed message reproduces the frame", (Parsed(e) /\ ~Has(e, "noreenc")) => o.first.reenc = e.frame),
      Ck("C12", "overwriting the input buffer changes neither the parsed message nor its re-encoding",
         (Has(o, "after") /\ Has(o, "first") /\ Has(o, "err") /\ ~o.err) => \A i \in DOMAIN o.after : o.after[i] = o.first) >>
 Failed(e) == LET cs == Checks(e) IN {i \in DOMAIN cs : ~cs[i][3]}
